@@ -51,3 +51,47 @@ Fixpoint tok_of_sx (x : sx) : tok :=
   | SxL [SxZ 28; ch] => LinkRefDefBlock (kids ch)
   | _ => RawText []
   end.
+
+(* encoding (model -> harness) *)
+Definition sx_of_optZ (o : option Z) : sx := match o with Some z => SxL [SxZ z] | None => SxL [] end.
+Definition sx_of_optstr (o : option str) : sx := match o with Some s => SxL [sx_of_str s] | None => SxL [] end.
+Definition sx_of_aligns (l : list (option Z)) : sx := SxL (map sx_of_optZ l).
+
+Fixpoint sx_of_tok (t : tok) : sx :=
+  let kids := fun (ch : list tok) => SxL (map sx_of_tok ch) in
+  let link := fun (tag : Z) (a : link_attrs) (ch : list tok) =>
+    SxL [SxZ tag; sx_of_str (l_target a); sx_of_str (l_title a); sx_of_str (l_dest_type a); sx_of_optstr (l_label a);
+         sx_of_str (l_title_delim a); kids ch] in
+  match t with
+  | RawText c => SxL [SxZ 0; sx_of_str c]
+  | Strong d ch => SxL [SxZ 1; sx_of_str d; kids ch]
+  | Emphasis d ch => SxL [SxZ 2; sx_of_str d; kids ch]
+  | Strikethrough ch => SxL [SxZ 3; kids ch]
+  | InlineCode a => SxL [SxZ 4; sx_of_str (c_delimiter a); sx_of_str (c_padding a); sx_of_str (c_content a)]
+  | Image a ch => link 5 a ch
+  | Link a ch => link 6 a ch
+  | AutoLink tg m ch => SxL [SxZ 7; sx_of_str tg; sx_of_bool m; kids ch]
+  | EscapeSequence ch => SxL [SxZ 8; kids ch]
+  | LineBreak c s => SxL [SxZ 9; sx_of_str c; sx_of_bool s]
+  | HtmlSpan c => SxL [SxZ 10; sx_of_str c]
+  | Math c => SxL [SxZ 11; sx_of_str c]
+  | Heading l c ch => SxL [SxZ 12; SxZ l; sx_of_str c; kids ch]
+  | SetextHeading l u ch => SxL [SxZ 13; SxZ l; sx_of_str u; kids ch]
+  | Quote ch => SxL [SxZ 14; kids ch]
+  | Paragraph ch => SxL [SxZ 15; kids ch]
+  | BlockCode c => SxL [SxZ 16; sx_of_str c]
+  | CodeFence a => SxL [SxZ 17; SxZ (f_indentation a); sx_of_str (f_delimiter a); sx_of_str (f_info a);
+                        sx_of_str (f_language a); sx_of_str (f_content a)]
+  | List s l ch => SxL [SxZ 18; sx_of_optZ s; sx_of_bool l; kids ch]
+  | ListItem a ch => SxL [SxZ 19; sx_of_str (i_leader a); SxZ (i_indentation a); SxZ (i_prepend a); sx_of_bool (i_loose a); kids ch]
+  | Table ca h ch => SxL [SxZ 20; sx_of_aligns ca; (match h with Some h' => SxL [sx_of_tok h'] | None => SxL [] end); kids ch]
+  | TableRow ra ch => SxL [SxZ 21; sx_of_aligns ra; kids ch]
+  | TableCell a ch => SxL [SxZ 22; sx_of_optZ a; kids ch]
+  | ThematicBreak l => SxL [SxZ 23; sx_of_str l]
+  | HtmlBlock c => SxL [SxZ 24; sx_of_str c]
+  | Document ch => SxL [SxZ 25; kids ch]
+  | BlankLine => SxL [SxZ 26]
+  | LinkRefDef a => SxL [SxZ 27; sx_of_str (d_label a); sx_of_str (d_dest a); sx_of_str (d_title a);
+                         sx_of_str (d_dest_type a); sx_of_str (d_title_delim a)]
+  | LinkRefDefBlock ch => SxL [SxZ 28; kids ch]
+  end.
